@@ -223,7 +223,7 @@ WIPE_VARIANTS = [f'wipe-{cc}-{o}' for cc in ('gcc', 'clang') for o in ('O0', 'O1
 prop('C16', src='props/c16_wipe.cpp',
      plan={'quick': [{'variant': v, 'workers': 1, 'scale': 1.0} for v in WIPE_VARIANTS], 'thorough': [{'variant': v, 'workers': 1} for v in WIPE_VARIANTS]},
      rule='rapidcheck: (full-entropy 19-byte secret, birthday, user features, language, coin, password with a 12-letter random tail, 32-byte mask, scenario) x ten plain builds (gcc and clang at -O0 -O1 -O2 -O3 -Os, linked -z now). Each API call - create, encode, decode and decode_explicit (success with composed and decomposed input, plus one of: word-count error, language error, checksum error, wrong coin, allocation failure, unsupported features), store, load (success plus one of checksum/format/format/allocation failure, and unsupported), keygen, getters, crypt, free - runs on a dedicated 256 KiB stack pre-filled with 0xA5; '
-          'afterwards the dead stack is searched for any 8 consecutive bytes of the secret (old and new), the random bytes, the mask, the password (raw and NFKD), any 12 consecutive bytes of the phrase (NFC and NFKD), and any 4 consecutive word indices / polynomial coefficients as 16-, 32- or 64-bit arrays. The injected wipe function fills 0xEE ("mark" mode): every block handed to the injected free during any call (seed release and the failure exits of load/decode) must be entirely 0xEE, and the wipe call immediately before polyseed_free\'s free must cover the block. At the end of each case the writable static storage of the executable (.data/.bss, where the statically linked library keeps its own statics; the harness keeps its copies on the heap or in TLS) is searched once for all patterns of the case. '
+          'afterwards the dead stack is searched for any 8 consecutive bytes of the secret (old and new), the random bytes, the mask, the password (raw and NFKD), any 12 consecutive bytes of the phrase (NFC and NFKD), and any 4 consecutive word indices / polynomial coefficients as 16-, 32- or 64-bit arrays. The injected wipe function really wipes and logs its calls: every block handed to the injected free during any call (seed release and the failure exits of load/decode) must be entirely zero AND covered by a logged wipe call made while it was allocated (zeroing by memset or a loop leaves no such call). At the end of each case the writable static storage of the executable (.data/.bss, where the statically linked library keeps its own statics; the harness keeps its copies on the heap or in TLS) is searched once for all patterns of the case. '
           'Every case is non-trivial (all calls handle secret items); distinct = fingerprint of the case.',
      required_classes={'any': ['call:create', 'call:encode', 'call:crypt', 'call:free', 'static-storage-scanned', 'exit:decode/OK', 'exit:decode/NUM_WORDS', 'exit:decode/LANG', 'exit:decode/CHECKSUM', 'exit:decode/MEMORY', 'exit:decode/UNSUPPORTED', 'exit:decode/MULT_LANG', 'exit:decode_explicit/OK', 'exit:decode_explicit/LANG', 'exit:load/OK', 'exit:load/CHECKSUM', 'exit:load/FORMAT', 'exit:load/MEMORY', 'exit:load/UNSUPPORTED']},
      assumptions=['memory inspection only: registers, caches and kernel copies are out of reach; compiler coverage is the ten listed builds', 'thresholds are 8 bytes / 12 phrase bytes / 4 indices: single spilled scalars are not demanded to be absent'],
